@@ -68,10 +68,13 @@ impl<R> BufReader<R> {
     }
 
     /// Creates a new `BufReader` with the specified buffer capacity.
+    ///
+    /// A capacity of 0 is treated as 1: a buffer without room could never be
+    /// filled and every read would look like the end of the stream.
     pub fn with_capacity(cap: usize, reader: R) -> Self {
         Self {
             reader,
-            buf: Buffer::with_capacity(cap),
+            buf: Buffer::with_capacity(cap.max(1)),
         }
     }
 }
